@@ -425,6 +425,42 @@ theorem C15_sequences_all_refused (σ : Broker α) (hw : WF15 σ) (ops : List (O
   rw [C15_sequences σ hw ops (noUpdate_of_allRefused σ ops h), acceptedOps_allRefused σ ops h]
   rfl
 
+/-! ### construction and the account-level cash getter: the supported-currency test -/
+
+/-- **C15 (construction).** The constructor yields a broker exactly when the base currency is one of the
+supported ones (list membership: equality with an element, not containment in some rendering of the list) and
+the initial funds are not negative; every other call is refused with `ValueError` and no broker exists. -/
+theorem C15_create (supported : List String) (cur : String) (t : Int) (funds : α) (fee : FeeModel α) :
+    (cur ∈ supported ∧ ¬ funds < 0 →
+      ∃ b, Broker.create supported cur t funds fee = .ok b ∧ WF15 b ∧ b.entries = [] ∧
+        b.master = (if 0 < funds then funds else 0)) ∧
+    (¬ (cur ∈ supported ∧ ¬ funds < 0) → Broker.create supported cur t funds fee = .error .value) := by
+  constructor
+  · rintro ⟨hc, hf⟩
+    have hn : Broker.new t funds fee =
+        .ok { clock := t, master := (if 0 < funds then funds else 0), fee := fee } := by
+      simp [Broker.new, lt_eq, hf]
+    refine ⟨_, ?_, C15_wf_new hn, rfl, rfl⟩
+    simp [Broker.create, hc, hn]
+  · intro h
+    by_cases hc : cur ∈ supported
+    · have hf : funds < 0 := by
+        by_contra hf; exact h ⟨hc, hf⟩
+      simp [Broker.create, hc, Broker.new, lt_eq, hf]
+    · simp [Broker.create, hc]
+
+/-- **C15 (account cash getter).** An unsupported currency is refused with `ValueError`; a supported one
+gives the master balance for the base currency and zero for the others. -/
+theorem C15_accountCash (σ : Broker α) (supported : List String) (base cur : String) :
+    (cur ∉ supported → σ.accountCash supported base cur = .error .value) ∧
+    (cur ∈ supported → σ.accountCash supported base cur = .ok (if cur = base then σ.master else 0)) := by
+  constructor
+  · intro h; simp [Broker.accountCash, h]
+  · intro h
+    by_cases hb : cur = base
+    · subst hb; simp [Broker.accountCash, h]
+    · simp [Broker.accountCash, h, hb]
+
 end
 end Qs
 
@@ -565,5 +601,14 @@ example : obs (run σm mixedTxn) = obs (run σm [.applyTxn "A" okTxn]) := by
   rw [h, h2]
 example : (run σm mixedTxn).entries.map (fun e => e.pf.positions.map (fun p => (p.asset, p.net))) =
     [[("X", 7), ("Y", 100)], []] := by decide +kernel
+
+/-- construction: a code that is *contained in* the text "USD, GBP, EUR" but is not one of the three codes is refused -/
+example : Broker.create ["USD", "GBP", "EUR"] "US" 0 (1000 : ℚ) .zero = .error .value :=
+  (C15_create _ _ _ _ _).2 (by decide)
+example : Broker.create ["USD", "GBP", "EUR"] "D, G" 0 (1000 : ℚ) .zero = .error .value :=
+  (C15_create _ _ _ _ _).2 (by decide)
+example : ∃ b, Broker.create ["USD", "GBP", "EUR"] "GBP" 0 (1000 : ℚ) .zero = .ok b ∧ b.master = 1000 := by
+  obtain ⟨b, h, _, _, hm⟩ := (C15_create ["USD", "GBP", "EUR"] "GBP" 0 (1000 : ℚ) .zero).1 ⟨by decide, by norm_num⟩
+  exact ⟨b, h, by simpa using hm⟩
 
 end Qs.C15Example
